@@ -834,6 +834,14 @@ func (c *Conn) FailRead(err error) {
 	}
 }
 
+// SawEOF reports whether the other side has closed (after all data was taken).
+func (c *Conn) SawEOF() bool {
+	c.in.mu.Lock()
+	defer c.in.mu.Unlock()
+
+	return c.in.eof
+}
+
 // PendingIn is the number of unread inbound bytes.
 func (c *Conn) PendingIn() int {
 	c.in.mu.Lock()
@@ -978,6 +986,20 @@ func (l *Listener) Accept() (net.Conn, error) {
 		case <-l.closed:
 		}
 	}
+}
+
+// Take pops a pending (not yet accepted) connection without blocking; harness
+// listeners are never Accept()ed.
+func (l *Listener) Take() *Conn {
+	l.mu.Lock()
+	defer l.mu.Unlock()
+	if len(l.q) == 0 {
+		return nil
+	}
+	c := l.q[0]
+	l.q = l.q[1:]
+
+	return c
 }
 
 // AcceptTCP implements transport.TCPListener.
